@@ -26,7 +26,8 @@ type mnode struct {
 	content  int  // content index of a CAS-backed file
 	target   string
 	tmpl     int // template of a directory that came from the DAG, else -1
-	expanded bool
+	expanded bool // model children materialised (lazy evaluation of the template; may run ahead of the real tree)
+	visited  bool // an executed step needed the contents, so the real directory has been asked to load them
 	children map[string]*mnode
 	occ1     int // 1 + template this directory is an expanded occurrence of (0 = none); statistics only
 }
@@ -95,13 +96,14 @@ type rig struct {
 	// File contents whose blob is missing or corrupted.
 	badContent map[int]string
 
+	marking  bool // true while predict() runs for an executed step
 	repairFn func() ([]int, []int)
 	merged   map[int]bool // action -> input root merged successfully
 	repaired bool
 
 	// Coverage facts.
 	badAccess    int         // answers that had to be (and were) a persistent I/O error
-	occExpanded  map[int]int // template -> expanded occurrences
+	occExpanded  map[int]int // template -> occurrences whose contents an executed step asked for
 	mods         int         // successful local modifications
 	modsInShared int         // ... inside an occurrence of a template that occurs more than once
 	refused      int         // refused mutation attempts on CAS-backed files
@@ -115,7 +117,7 @@ type rig struct {
 func newRig(w *world, mat *materialized) *rig {
 	return &rig{
 		w: w, mat: mat, spec: mat.spec,
-		root:        &mnode{kind: kindDir, tmpl: -1, expanded: true, children: map[string]*mnode{}},
+		root:        &mnode{kind: kindDir, tmpl: -1, expanded: true, visited: true, children: map[string]*mnode{}},
 		badTmpl:     map[int]string{},
 		badContent:  map[int]string{},
 		occExpanded: map[int]int{},
@@ -123,6 +125,25 @@ func newRig(w *world, mat *materialized) *rig {
 		refusedBy:   map[string]int{},
 		repairFn:    func() ([]int, []int) { return nil, nil },
 	}
+}
+
+// handleLeakDiagnostic removes everything below the top directory and then
+// asks the NFS handle pool (read-only verif hook) what it still tracks. Leaf
+// handles that survive are leaves whose link count was not returned, e.g.
+// leaves created by a directory load that failed half way. This is a
+// DIAGNOSTIC (how the code keeps its books), not part of the C17 verdict.
+func (r *rig) handleLeakDiagnostic() string {
+	if r.w.nfs == nil {
+		return ""
+	}
+	if err := r.w.top.RemoveAllChildren(false); err != nil {
+		return "RemoveAllChildren failed: " + err.Error()
+	}
+	dirs, stateful, stateless := r.w.nfs.VerifNFSHandlePoolCounts()
+	if dirs != 1 || stateful != 0 || stateless != 0 {
+		return fmt.Sprintf("after removing the whole tree the NFS handle pool still tracks %d directories (want 1, the top), %d stateful and %d stateless leaves (want 0)", dirs, stateful, stateless)
+	}
+	return ""
 }
 
 func (r *rig) contentsBad(n *mnode) bool {
@@ -151,9 +172,20 @@ func (r *rig) expand(n *mnode) {
 	n.children = map[string]*mnode{}
 	if n.tmpl >= 0 {
 		n.occ1 = n.tmpl + 1
-		r.occExpanded[n.tmpl]++
 		for _, e := range r.spec.Dirs[n.tmpl].Entries {
 			n.children[e.Name] = r.nodeFromEntry(e)
+		}
+	}
+}
+
+// touch expands a directory and, while a step is being judged (as opposed
+// to generated), records that the real tree was asked for its contents.
+func (r *rig) touch(n *mnode) {
+	r.expand(n)
+	if r.marking && n.kind == kindDir && !n.visited {
+		n.visited = true
+		if n.tmpl >= 0 {
+			r.occExpanded[n.tmpl]++
 		}
 	}
 }
@@ -167,7 +199,7 @@ func (r *rig) modelDir(p []string) (*mnode, bool) {
 		if r.contentsBad(cur) {
 			return nil, false
 		}
-		r.expand(cur)
+		r.touch(cur)
 		next, ok := cur.children[name]
 		if !ok || next.kind != kindDir {
 			panic(fmt.Sprintf("harness bug: model has no directory %q on path %v", name, p))
@@ -177,7 +209,7 @@ func (r *rig) modelDir(p []string) (*mnode, bool) {
 	if r.contentsBad(cur) {
 		return nil, false
 	}
-	r.expand(cur)
+	r.touch(cur)
 	return cur, true
 }
 
